@@ -479,8 +479,13 @@ func opsC19() {
 		if i%7 == 0 {
 			cb, tb = ca, ta
 		}
-		N := []int{-1, 0, 1, 2, 3, 4, 5}[r.Intn(7)] // -1: argument absent
-		if N >= 1 && N <= 4 && (len(ca) > N || len(cb) > N) {
+		N := []int64{-1, 0, 1, 2, 3, 4, 5}[r.Intn(7)] // -1: argument absent
+		if r.Intn(6) == 0 {
+			// lengths that are only in range after some narrowing conversion
+			N = []int64{255, 256, 257, 258, 259, 260, 261, 512, 513, -252, -253, -255, -256, 65537, 65540, 1<<32 + 1, 1<<32 + 3,
+				math.MaxInt64, math.MinInt64, math.MinInt64 + 2}[r.Intn(20)]
+		}
+		if N >= 1 && N <= 4 && (len(ca) > int(N) || len(cb) > int(N)) {
 			// the property speaks about versions with up to N components
 			if r.Intn(4) > 0 {
 				N = 4
@@ -491,16 +496,23 @@ func opsC19() {
 		id++
 		enc := func(t string) M {
 			ps := []interface{}{t}
-			if N >= 0 {
-				ps = append(ps, int64(N))
+			if N != -1 {
+				ps = append(ps, N)
 			}
 			return callOp(opn, ps, path)
 		}
-		rec := M{"fam": "ops", "for": "C19", "kind": "ver", "id": id, "a": ca, "b": cb, "ta": ta, "tb": tb, "n": N, "op": opn,
+		// (the model only asks whether the length is within 1..4: far-away lengths are clamped for TLC's integers)
+		nModel := N
+		if nModel > 1000000 {
+			nModel = 1000000
+		} else if nModel < -1000000 {
+			nModel = -1000000
+		}
+		rec := M{"fam": "ops", "for": "C19", "kind": "ver", "id": id, "a": ca, "b": cb, "ta": ta, "tb": tb, "n": nModel, "nraw": fmt.Sprint(N), "op": opn,
 			"src": fmt.Sprintf("(< (%s %q %d) (%s %q %d))", opn, ta, N, opn, tb, N), "ea": enc(ta), "eb": enc(tb)}
 		// the comparison through the engine
 		arg := ""
-		if N >= 0 {
+		if N != -1 {
 			arg = fmt.Sprint(" ", N)
 		}
 		cmp := M{}
@@ -524,7 +536,13 @@ func opsC19() {
 	// dates
 	type lay struct{ id, layout string }
 	dateLayouts := []lay{{"d0", "2006-01-02"}, {"d1", "2006/01/02"}, {"d2", "02-01-2006"}, {"d3", "Jan 2, 2006"}}
-	timeLayouts := []lay{{"t0", "2006-01-02 15:04:05"}, {"t1", "2006-01-02T15:04:05"}, {"t2", "02/01/2006 15.04.05"}}
+	timeLayouts := []lay{{"t0", "2006-01-02 15:04:05"}, {"t1", "2006-01-02T15:04:05"}, {"t2", "02/01/2006 15.04.05"},
+		{"t3", "2006-01-02T15:04:05Z07:00"}, {"t4", "2006-01-02 15:04:05 -0700"}}
+	zones := []struct {
+		colon, plain string
+		secs         int
+	}{{"Z", "+0000", 0}, {"+00:00", "+0000", 0}, {"+09:00", "+0900", 9 * 3600}, {"-05:00", "-0500", -5 * 3600},
+		{"+05:30", "+0530", 5*3600 + 1800}, {"-00:30", "-0030", -1800}, {"+14:00", "+1400", 14 * 3600}, {"-12:00", "-1200", -12 * 3600}}
 	years := []int{1, 1900, 1969, 1970, 1999, 2000, 2024, 2038, 9999}
 	ndate := 1200
 	if thorough {
@@ -545,6 +563,7 @@ func opsC19() {
 		// the text is produced from the fields digit by digit (so invalid days such as Feb 30 are expressible)
 		var L lay
 		var text string
+		off := 0
 		months := []string{"Jan", "Feb", "Mar", "Apr", "May", "Jun", "Jul", "Aug", "Sep", "Oct", "Nov", "Dec"}
 		if withTime {
 			L = timeLayouts[r.Intn(len(timeLayouts))]
@@ -555,6 +574,14 @@ func opsC19() {
 				text = fmt.Sprintf("%04d-%02d-%02dT%02d:%02d:%02d", y, m, d, hh, mi, ss)
 			case "t2":
 				text = fmt.Sprintf("%02d/%02d/%04d %02d.%02d.%02d", d, m, y, hh, mi, ss)
+			case "t3":
+				z := zones[r.Intn(len(zones))]
+				off = z.secs
+				text = fmt.Sprintf("%04d-%02d-%02dT%02d:%02d:%02d%s", y, m, d, hh, mi, ss, z.colon)
+			case "t4":
+				z := zones[r.Intn(len(zones))]
+				off = z.secs
+				text = fmt.Sprintf("%04d-%02d-%02d %02d:%02d:%02d %s", y, m, d, hh, mi, ss, z.plain)
 			}
 		} else {
 			L = dateLayouts[r.Intn(len(dateLayouts))]
@@ -608,7 +635,7 @@ func opsC19() {
 		}
 		id++
 		rec := M{"fam": "ops", "for": "C19", "kind": "date", "id": id, "y": y, "mo": m, "d": d, "hh": hh, "mi": mi, "ss": ss,
-			"text": text, "layout": L.id, "op": opn, "broken": broken, "src": fmt.Sprintf("(%s %q)", opn, text),
+			"text": text, "layout": L.id, "off": off, "op": opn, "broken": broken, "src": fmt.Sprintf("(%s %q)", opn, text),
 			"res": callOp(opn, ps, []string{"var", "lit"}[r.Intn(2)])}
 		emit(rec)
 	}
